@@ -101,7 +101,7 @@ class Run:
     def load_findings(self):
         p = os.path.join(ROOT, 'known_findings.json')
         if not os.path.exists(p): return []
-        return [f for f in json.load(open(p)).get('findings', []) if f.get('property') == self.pid]
+        return json.load(open(p)).get('findings', [])   # matched per harness by (property, harness name) in exclusions()
 
     # ------------------------------------------------------------------ build
     def tu_spec(self, key):
@@ -410,7 +410,7 @@ class Run:
             if key in self.excl_cache: return self.excl_cache[key]
         extra = []; hits = []
         for f in self.findings:
-            if f.get('harness') != h['name'] or f.get('status') != 'open': continue
+            if f.get('property') != h.get('finding_pid', self.pid) or f.get('harness') != h.get('finding_harness', h['name']) or f.get('status') != 'open': continue
             if f.get('configs') and not any(all(str(cfg.get(k)) == str(v) for k, v in c.items()) for c in f['configs']): continue
             wcfg = {k: v for k, v in cfg.items() if not k.startswith('_')}; wcfg.update(f.get('witness_config', {}))
             wkey = (f['id'], h['name'], json.dumps(wcfg, sort_keys=True))
